@@ -218,6 +218,10 @@ def run(prog: Program, rep: Report, tier: str) -> None:
             v = F.le32_of(holes["ARG:" + role])
             okw = v is not None and isinstance(v, tuple) and v[:2] == ("app", "int") and isinstance(v[2], tuple) and v[2][:2] == ("app", "time.mktime") \
                 and isinstance(v[2][2], tuple) and v[2][2][:2] == ("app", "time.strptime") and T.is_c(v[2][2][3]) and str(v[2][2][3][1]).endswith(" %H:%M")
+            if not okw and v is not None and isinstance(v, tuple) and v[:2] == ("app", "int") and isinstance(v[2], tuple) and v[2][:2] == ("app", "time.mktime") \
+                    and not (isinstance(v[2][2], tuple) and v[2][2][:2] == ("app", "time.strptime")):
+                rep.undecided("R10.4", f"encoder of {role}", wherew, f"writer encodes {role} as LE32 of {T.show(v)[:160]}: int(time.mktime(..)) of a time tuple built another way than strptime - a form this rule does not compare")
+                continue
             rep.check(okw, "R10.4", f"encoder of {role}", wherew,
                       f"writer encodes {role} as LE32 of {T.show(v)[:160] if v else T.show(holes['ARG:' + role])[:120]}; the reader decodes LE32 -> time.localtime -> '%H:%M', so the writer must be '%H:%M' -> time.mktime -> LE32",
                       key=f"R10.4|encoder|{role}")
